@@ -64,9 +64,11 @@ func vtDirectServer(p *vtPKI, c vtCase, r *vtRec) {
 		return
 	}
 	r.Startup = "ready"
+	pc, sent := p.peerClient(c.Cred)
 	r.Proxy, r.Peer = vtLoopback(r,
 		func(conn net.Conn) vtEnd { return vtTLSEnd(tls.Server(conn, tc), false) },
-		func(conn net.Conn) vtEnd { return vtTLSEnd(tls.Client(conn, p.peerClient(c.Cred)), true) })
+		func(conn net.Conn) vtEnd { return vtTLSEnd(tls.Client(conn, pc), true) })
+	r.Peer.Sent = sent.Load()
 }
 
 func vtDirectClient(p *vtPKI, c vtCase, r *vtRec) {
@@ -83,4 +85,5 @@ func vtDirectClient(p *vtPKI, c vtCase, r *vtRec) {
 	r.Peer, r.Proxy = vtLoopback(r,
 		func(conn net.Conn) vtEnd { return vtTLSEnd(tls.Server(conn, p.peerServer(c.Cred)), false) },
 		func(conn net.Conn) vtEnd { return vtTLSEnd(tls.Client(conn, tc), true) })
+	r.Peer.Sent = c.Cred.Class != "none"
 }
